@@ -1026,6 +1026,12 @@ func TestC47(t *testing.T) {
 	}
 	strTs := m.stringTargets()
 	bzTs := m.byteTargets()
+	// every byte-level decoder also starts from the bare JSON documents (a decoder that unmarshals into an interface or pointer gets nil for `null`)
+	for i := range bzTs {
+		for _, lit := range []string{"null", " null ", "\n\tnull\n", "true", "0", "-1", `""`, "[]", "[null]", "{}", `{"":null}`} {
+			bzTs[i].seeds = append(bzTs[i].seeds, []byte(lit))
+		}
+	}
 	exercised := map[string]bool{}
 
 	// systematic sweep: every corpus message with exactly one field absent from its wire form, at every nesting level
